@@ -1296,6 +1296,7 @@ func TestVerifC19NUMARestart(t *testing.T) {
 					c.Count("race_objects_delivered_only_before_topology", 1)
 					if _, ok := rmR.GetNodeAllocation(o.node.name).allocatedPods[o.uid]; ok {
 						c.Count("race_objects_delivered_only_before_topology_kept", 1)
+						o.afterTopo = true // counted once
 						continue
 					}
 					c.Count("race_objects_delivered_only_before_topology_lost", 1)
